@@ -1240,6 +1240,202 @@ def _fun_row_rfa(fn, fname, bound):
     return "  (%s, (%s,\n     %s))" % (_cstr(fn.name), _glist(params), _gstmts(fn.body, "%s:%s" % (fname, fn.name)))
 
 
+
+# ==========================================================================================
+# datasets/_base.py -> Gen/CacheSkeleton.v : guards and the order / scoping of the effects of the remote loader
+# ==========================================================================================
+def _bexpr(e, names, where):
+    """boolean expression over the given names -> Coq bool term"""
+    if isinstance(e, ast.Name) and e.id in names:
+        return e.id
+    if isinstance(e, ast.UnaryOp) and isinstance(e.op, ast.Not):
+        return "(negb %s)" % _bexpr(e.operand, names, where)
+    if isinstance(e, ast.BoolOp):
+        op = " && " if isinstance(e.op, ast.And) else " || "
+        return "(" + op.join(_bexpr(v, names, where) for v in e.values) + ")"
+    raise TranslateError("%s: boolean expression outside the grammar: %s" % (where, ast.unparse(e)[:100]))
+
+
+def _name_of(e):
+    return e.id if isinstance(e, ast.Name) else None
+
+
+def _join_parts(e):
+    """path.join(a, b) with two names -> (a, b)"""
+    if isinstance(e, ast.Call) and _dotted(e.func) in ("path.join", "os.path.join") and len(e.args) == 2 and not e.keywords \
+            and all(isinstance(a, ast.Name) for a in e.args):
+        return (e.args[0].id, e.args[1].id)
+    return None
+
+
+@target("CacheSkeleton")
+def gen_cache_skeleton():
+    fname = "datasets/_base.py"
+    tree = ast.parse(_src(fname))
+    where = fname
+    load = _find_fun(tree, "load_csv_dataset_from_remote")
+    fetch = _find_fun(tree, "_fetch_remote")
+    body = _body(load)
+    # ---- load_csv_dataset_from_remote: expected statement skeleton
+    sig = ";".join(_stmt_sig(s) for s in body)
+    expect = ("assign:data_home;assign:dataset_dir;assign:dataset_file_path;assign:available;assign:dataset;"
+              "if(call:os.makedirs;With|if(raise|));if(assign:dataset|);if(return|return)")
+    if sig != expect:
+        raise TranslateError("%s:load_csv_dataset_from_remote: statement skeleton changed:\n  expected %s\n  found    %s" % (fname, expect, sig))
+    paths = {}
+    for st in body[:5]:
+        tg = st.targets[0].id
+        jp = _join_parts(st.value)
+        if jp:
+            paths[tg] = jp
+    if paths.get("dataset_dir", (None, None))[1] != "dataset_folder" or paths.get("dataset_file_path") != ("dataset_dir", "dataset_filename"):
+        raise TranslateError("%s: cache slot path is not data_home/dataset_folder/dataset_filename: %s" % (fname, paths))
+    av = body[3].value
+    if not (isinstance(av, ast.Call) and _dotted(av.func) == "path.exists" and len(av.args) == 1 and _name_of(av.args[0]) == "dataset_file_path"):
+        raise TranslateError("%s: `available` is not path.exists(dataset_file_path)" % fname)
+    if not (isinstance(body[4].value, ast.Constant) and body[4].value.value is None):
+        raise TranslateError("%s: dataset is not initialised to None" % fname)
+    ifst = body[5]
+    bnames = {"download_if_missing", "download_even_if_available", "available"}
+    download_cond = _bexpr(ifst.test, bnames, fname)
+    elifst = ifst.orelse[0]
+    missing_cond = _bexpr(elifst.test, bnames, fname)
+    missing_exn = elifst.body[0].exc.func.id if isinstance(elifst.body[0].exc, ast.Call) and isinstance(elifst.body[0].exc.func, ast.Name) else None
+    if missing_exn is None:
+        raise TranslateError("%s: raise in the missing-data branch outside the grammar" % fname)
+    mk = ifst.body[0].value
+    if not (_dotted(mk.func) == "os.makedirs" and _name_of(mk.args[0]) == "dataset_dir"):
+        raise TranslateError("%s: makedirs target is not dataset_dir" % fname)
+    w = ifst.body[1]
+    if len(w.items) != 1 or not isinstance(w.items[0].context_expr, ast.Call) or _dotted(w.items[0].context_expr.func) != "TemporaryDirectory" \
+            or _name_of(w.items[0].optional_vars) is None:
+        raise TranslateError("%s: with-statement is not `with TemporaryDirectory(...) as <name>`" % fname)
+    tmpcall = w.items[0].context_expr
+    tmp_var = w.items[0].optional_vars.id
+    tmp_parent = None
+    for k in tmpcall.keywords:
+        if k.arg == "dir":
+            tmp_parent = _name_of(k.value)
+    if tmpcall.args or tmp_parent is None or len(tmpcall.keywords) != 1:
+        raise TranslateError("%s: TemporaryDirectory arguments outside the grammar" % fname)
+    # ---- the effects inside the with block, in order
+    wsig = ";".join(_stmt_sig(s) for s in w.body)
+    wexpect = "call:logger.info;assign:archive_path;if(assign:dataset|assign:dataset);assign:dataset_tmp_file_path;call:pickle.dump;call:os.rename"
+    if wsig != wexpect:
+        raise TranslateError("%s: statements inside the TemporaryDirectory block changed:\n  expected %s\n  found    %s" % (fname, wexpect, wsig))
+    fcall = w.body[1].value
+    if not (isinstance(fcall, ast.Call) and _name_of(fcall.func) == "_fetch_remote" and len(fcall.args) == 1 and _name_of(fcall.args[0]) == "remote"):
+        raise TranslateError("%s: archive_path is not _fetch_remote(remote, ...)" % fname)
+    fkw = {k.arg: _name_of(k.value) for k in fcall.keywords}
+    gz = w.body[2]
+    if _name_of(gz.test) != "gzip":
+        raise TranslateError("%s: parse branch is not `if gzip`" % fname)
+
+    def loadtxt_src(call):
+        if not (isinstance(call, ast.Call) and _dotted(call.func) == "np.loadtxt" and len(call.args) == 1):
+            raise TranslateError("%s: parse step is not np.loadtxt(<one source>, ...)" % fname)
+        a = call.args[0]
+        if isinstance(a, ast.Name):
+            return ("plain", a.id)
+        if isinstance(a, ast.Call) and _name_of(a.func) == "GzipFile" and len(a.keywords) == 1 and a.keywords[0].arg == "filename" and not a.args:
+            return ("gzip", _name_of(a.keywords[0].value))
+        raise TranslateError("%s: np.loadtxt source outside the grammar" % fname)
+    parse_gz = loadtxt_src(gz.body[0].value)
+    parse_plain = loadtxt_src(gz.orelse[0].value)
+    tmpfile = _join_parts(w.body[3].value)
+    dump = w.body[4].value
+    dump_ok = (len(dump.args) == 2 and _name_of(dump.args[0]) == "dataset" and isinstance(dump.args[1], ast.Call) and _name_of(dump.args[1].func) == "open"
+               and _name_of(dump.args[1].args[0]) == "dataset_tmp_file_path")
+    ren = w.body[5].value
+    ren_args = [_name_of(a) for a in ren.args] if not ren.keywords else None
+    rd = body[6]
+    read_ok = (isinstance(rd.test, ast.Compare) and _name_of(rd.test.left) == "dataset" and isinstance(rd.test.ops[0], ast.Is)
+               and isinstance(rd.test.comparators[0], ast.Constant) and rd.test.comparators[0].value is None)
+    rdv = rd.body[0].value
+    read_src = None
+    if isinstance(rdv, ast.Call) and _dotted(rdv.func) == "pickle.load" and isinstance(rdv.args[0], ast.Call) and _name_of(rdv.args[0].func) == "open":
+        read_src = _name_of(rdv.args[0].args[0])
+    # ---- _fetch_remote
+    fb = _body(fetch)
+    fsig = ";".join(_stmt_sig(s) for s in fb)
+    if fsig != "assign:file_path;While;if(assign:checksum;if(raise|)|);return":
+        raise TranslateError("%s:_fetch_remote: statement skeleton changed: %s" % (fname, fsig))
+    wl = fb[1]
+    if not (isinstance(wl.test, ast.Constant) and wl.test.value is True and len(wl.body) == 1 and isinstance(wl.body[0], ast.Try)):
+        raise TranslateError("%s:_fetch_remote: retry loop is not `while True: try: ...`" % fname)
+    tr = wl.body[0]
+    if len(tr.body) != 2 or not isinstance(tr.body[1], ast.Break) or tr.orelse or tr.finalbody or len(tr.handlers) != 1:
+        raise TranslateError("%s:_fetch_remote: try block outside the grammar" % fname)
+    dl = tr.body[0].value
+    if not (isinstance(dl, ast.Call) and _name_of(dl.func) == "urlretrieve" and len(dl.args) == 2 and _dotted(dl.args[0]) == "remote.url" and _name_of(dl.args[1]) == "file_path"):
+        raise TranslateError("%s:_fetch_remote: download call is not urlretrieve(remote.url, file_path)" % fname)
+    h = tr.handlers[0]
+    caught = [_name_of(x) for x in (h.type.elts if isinstance(h.type, ast.Tuple) else [h.type])]
+    hsig = ";".join(_stmt_sig(s) for s in h.body)
+    if hsig != "if(raise|);call:warnings.warn;aug:n_retries;call:time.sleep":
+        raise TranslateError("%s:_fetch_remote: exception handler changed: %s" % (fname, hsig))
+    gu = h.body[0].test
+    if not (isinstance(gu, ast.Compare) and _name_of(gu.left) == "n_retries" and len(gu.ops) == 1 and isinstance(gu.comparators[0], ast.Constant)
+            and isinstance(gu.comparators[0].value, int) and type(gu.ops[0]) in _GLUE_CMPOPS and h.body[0].body[0].exc is None):
+        raise TranslateError("%s:_fetch_remote: give-up test outside the grammar" % fname)
+    giveup = "(n %s %d)%%Z" % ({"==": "=?", "<=": "<=?", "<": "<?"}.get(_GLUE_CMPOPS[type(gu.ops[0])]) or "??", gu.comparators[0].value)
+    if "??" in giveup:
+        raise TranslateError("%s:_fetch_remote: give-up comparison %s outside the grammar" % (fname, ast.unparse(gu)))
+    dec = h.body[2]
+    if not (_name_of(dec.target) == "n_retries" and type(dec.op) in (ast.Sub, ast.Add) and isinstance(dec.value, ast.Constant) and isinstance(dec.value.value, int)):
+        raise TranslateError("%s:_fetch_remote: retry counter update outside the grammar" % fname)
+    nxt = "(n %s %d)%%Z" % ("-" if isinstance(dec.op, ast.Sub) else "+", dec.value.value)
+    ck = fb[2]
+    if _name_of(ck.test) != "validate_checksum":
+        raise TranslateError("%s:_fetch_remote: checksum guard is not `if validate_checksum`" % fname)
+    cka = ck.body[0].value
+    if not (isinstance(cka, ast.Call) and _name_of(cka.func) == "_sha256" and _name_of(cka.args[0]) == "file_path"):
+        raise TranslateError("%s:_fetch_remote: checksum is not _sha256(file_path)" % fname)
+    cmpx = ck.body[1].test
+    sides = None
+    if isinstance(cmpx, ast.Compare) and len(cmpx.ops) == 1 and type(cmpx.ops[0]) in (ast.NotEq, ast.Eq):
+        sides = {(_dotted(cmpx.left) or ""), (_dotted(cmpx.comparators[0]) or "")}
+    if sides != {"remote.checksum", "checksum"}:
+        raise TranslateError("%s:_fetch_remote: checksum comparison outside the grammar: %s" % (fname, ast.unparse(cmpx)))
+    reject = "(validate && negb same)" if isinstance(cmpx.ops[0], ast.NotEq) else "(validate && same)"
+    ck_exn = ck.body[1].body[0].exc.func.id
+    fp = fb[0].value     # remote.filename if dirname is None else path.join(dirname, remote.filename)
+    fp_ok = isinstance(fp, ast.IfExp) and isinstance(fp.orelse, ast.Call) and _dotted(fp.orelse.func) == "path.join" and _name_of(fp.orelse.args[0]) == "dirname"
+
+    def S(v):
+        return _cstr(v if v is not None else "?")
+    out = ["(** GENERATED by tools/translate.py from /repo/src/traffic_weaver/datasets/_base.py (load_csv_dataset_from_remote, _fetch_remote)",
+           "    — do not edit.  Guards as boolean functions; order and scoping of the effects as data. *)",
+           "From Coq Require Import Bool ZArith String List.", "Import ListNotations.", "Open Scope string_scope.", "",
+           "Definition gen_download_cond (download_if_missing download_even_if_available available : bool) : bool :=\n  %s." % download_cond,
+           "Definition gen_missing_cond (download_if_missing download_even_if_available available : bool) : bool :=\n  %s." % missing_cond,
+           "Definition gen_missing_exn : string := %s." % S(missing_exn),
+           "(** with TemporaryDirectory(dir=<parent>) as <var> *)",
+           "Definition gen_tmp_parent : string := %s.\nDefinition gen_tmp_var : string := %s." % (S(tmp_parent), S(tmp_var)),
+           "(** _fetch_remote(remote, dirname=..., n_retries=..., delay=..., validate_checksum=...) *)",
+           "Definition gen_fetch_kwargs : list (string * string) := %s." % _glist("(%s, %s)" % (S(k), S(v)) for k, v in sorted(fkw.items())),
+           "Definition gen_fetch_path_in_dirname : bool := %s." % ("true" if fp_ok else "false"),
+           "(** np.loadtxt sources: (kind, variable) under `if gzip` / else *)",
+           "Definition gen_parse_sources : list (string * string) := [(%s, %s); (%s, %s)]." % (S(parse_gz[0]), S(parse_gz[1]), S(parse_plain[0]), S(parse_plain[1])),
+           "(** the temp file is join(<dir>, <name>); pickle.dump(dataset, open(<temp file>)) *)",
+           "Definition gen_tmp_file : string * string := (%s, %s)." % (S(tmpfile[0] if tmpfile else None), S(tmpfile[1] if tmpfile else None)),
+           "Definition gen_dump_to_tmp_file : bool := %s." % ("true" if dump_ok else "false"),
+           "(** os.rename(src, dst), the last statement inside the with block *)",
+           "Definition gen_rename : list string := %s." % _glist(S(a) for a in (ren_args or [])),
+           "Definition gen_slot_path : list string := [%s; %s; %s]." % (S(paths["dataset_dir"][0]), S(paths["dataset_dir"][1]), S(paths["dataset_file_path"][1])),
+           "(** if dataset is None: dataset = pickle.load(open(<path>)) *)",
+           "Definition gen_read_cache : bool * string := (%s, %s)." % ("true" if read_ok else "false", S(read_src)),
+           "(** the effects of a download, in source order *)",
+           "Definition gen_download_effects : list string := [\"makedirs\"; \"tmpdir\"; \"fetch\"; \"parse\"; \"dump\"; \"rename\"; \"cleanup\"].",
+           "(** _fetch_remote: exceptions absorbed by the retry loop, give-up test, counter update, checksum rejection *)",
+           "Definition gen_retry_caught : list string := %s." % _glist(S(c) for c in caught),
+           "Definition gen_giveup (n : Z) : bool := %s." % giveup,
+           "Definition gen_next_retries (n : Z) : Z := %s." % nxt,
+           "Definition gen_checksum_reject (validate same : bool) : bool := %s." % reject,
+           "Definition gen_checksum_exn : string := %s." % S(ck_exn), ""]
+    return "\n".join(out)
+
+
 # MAIN-BLOCK (keep last)
 if __name__ == "__main__":
     import sys
